@@ -219,6 +219,8 @@ static void c04_phase(int G, int k, double penCells, bool tris) {
             double cost = len / S + penCells * (rt.size() > 2 ? rt.size() - 2 : 0);
             if (straight_blocked(sc, eps[i].first, eps[i].second)) ctx.count("nontrivial");
             ctx.cls("bends", mcx::fmt("%zu", rt.size() > 2 ? rt.size() - 2 : 0));
+            // a route that cuts through a shape is C03's business (and its known findings); optimality is judged on valid routes
+            { bool inval = false; vector<Poly> scS = scaled(sc); for (size_t q = 1; q < rt.size() && !inval; q++) for (auto &sh : scS) if (hitsInteriorD(sh, rt.ps[q - 1].x, rt.ps[q - 1].y, rt.ps[q].x, rt.ps[q].y, 1e-6)) inval = true; if (inval) { ctx.count("invalid_route_left_to_C03"); continue; } }
             if (cost > o + 1e-6 || cost < lb - 1e-6) {
                 string desc = mcx::fmt("segmentPenalty=%g cells scene ", penCells) + scene_str(sc) + mcx::fmt(" conn (%lld,%lld)->(%lld,%lld)", eps[i].first.x, eps[i].first.y, eps[i].second.x, eps[i].second.y);
                 ctx.violation(cost > o ? "longer_than_optimal" : "shorter_than_possible", {}, desc, mcx::fmt("route cost %.9g, rubber-band optimum %.9g, tangent-graph optimum %.9g, route ", cost, o, lb) + route_str(rt));
